@@ -402,6 +402,11 @@ func (r *renderer) stmt(s Stmt, d int) {
 			r.line(d, r.cmd("jump {"+l.expr(s.E)+"}"))
 		}
 	case "cmd":
+		if len(s.Elems) == 0 {
+			// valid for the grammar (the text of the command is not empty), no word for the runner: an error (C06)
+			r.line(d, r.cmd([]string{"\u00a0", "\u3000", "\u00a0 \u2003", "\u3000\u00a0"}[l.rnd.Intn(4)]))
+			return
+		}
 		words := make([]string, len(s.Elems))
 		for i, e := range s.Elems {
 			words[i] = r.commandWord(e)
